@@ -397,7 +397,11 @@ func (s *session) lateHandler(id int) ServeHandlerDescription {
 					res = int64(u) + 1000000
 				}
 			}
-			s.r.ev("he %d %d %s %d %d", id, h, nonceOf(res), 0, 0)
+			ce := 0
+			if ctx.Err() != nil {
+				ce = 1
+			}
+			s.r.ev("he %d %d %s %d %d", id, h, nonceOf(res), 0, ce)
 			return res, nil
 		}}
 }
